@@ -463,8 +463,17 @@ def sym(text):
 
 def exp_cell(repo, ll_kind):
     """Run MultiVector.exp with x*x having the given kind; returns (outcome, info)."""
+    def npscalar(text, value):
+        # a numpy scalar (np.float32, np.int64): a real number that is no instance of float / int; arithmetic is recorded as text
+        o = sym(text)
+        o.kind = "npscalar"
+        o.methods["compare"] = lambda op, other: {"Gt": value > other, "Lt": value < other, "Eq": value == other, "NotEq": value != other,
+                                                  "GtE": value >= other, "LtE": value <= other}[op] if isinstance(other, (int, float)) else Unk("cmp")
+        return o
     ll_value = {"positive": 0.25, "zero": 0.0, "negative": -0.25, "positive-int": 4, "zero-int": 0,
-                "symbolic": sym("LL"), "array": Obj("ndarray", {"fmt": "ARR"})}[ll_kind]
+                "symbolic": sym("LL"), "array": Obj("ndarray", {"fmt": "ARR"}),
+                "positive numpy scalar": npscalar("NP", 0.25), "zero numpy scalar": npscalar("NP", 0.0),
+                "negative numpy scalar": npscalar("NP", -0.25)}[ll_kind]
     if ll_kind == "array":
         arr = ll_value
         arr.methods["binop"] = lambda op, other, refl: sym(f"arr({op})")
@@ -494,6 +503,10 @@ def exp_cell(repo, ll_kind):
             return isinstance(v, Obj) and v.kind == "sym" and v is ll_value
         if name in ("float", "int") and isinstance(v, Obj):
             return False
+        if name in ("Real", "Number", "Complex") and isinstance(v, Obj):
+            return v.kind == "npscalar"
+        if name in ("Integral", "Rational") and isinstance(v, Obj):
+            return False
         return None
 
     def fn_tok(name):
@@ -517,14 +530,19 @@ EXP_EXPECT = {
     "zero-int": {"((X*1)+1)"},
     "negative": {"((X*np.sinc((0.5/pi)))+np.cos(0.5))", "((X*(np.sin(0.5)/0.5))+np.cos(0.5))"},
     "symbolic": {"((X*sympy.sinc(((-LL)**0.5)))+sympy.cos(((-LL)**0.5)))"},
+    # numpy scalars are real numbers that are no instances of float / int (F31): same families, chosen by the sign of the square
+    "positive numpy scalar": {"((X*(np.sinh((NP**0.5))/(NP**0.5)))+np.cosh((NP**0.5)))"},
+    "zero numpy scalar": {"((X*1)+1)"},
+    "negative numpy scalar": {"((X*np.sinc((((-NP)**0.5)/pi)))+np.cos(((-NP)**0.5)))", "((X*(np.sin(((-NP)**0.5))/((-NP)**0.5)))+np.cos(((-NP)**0.5)))"},
 }
 
 
-@rule("C19.exp-branches", props=["C19", "C12"], min_instances=6, mutants=[
+@rule("C19.exp-branches", props=["C19", "C12"], min_instances=9, mutants=[
     ("positive square uses cos", ("multivector", "                cosh = np.cosh\n                sinhc = lambda x: np.sinh(x) / x", "                cosh = np.cos\n                sinhc = lambda x: np.sinh(x) / x")),
     ("negative square takes sqrt(x) instead of sqrt(-x)", ("multivector", "                # Assume numpy\n                sqrt = lambda x: (-x) ** 0.5", "                # Assume numpy\n                sqrt = lambda x: x ** 0.5")),
     ("result combined as x*cosh + sinhc", ("multivector", "        return self * sinhc(l) + cosh(l)", "        return self * cosh(l) + sinhc(l)")),
-    ("zero square falls into the hyperbolic branch", ("multivector", "            elif isinstance(ll, (float, int)) and ll > 0:", "            elif isinstance(ll, (float, int)) and ll >= 0:")),
+    ("zero square falls into the hyperbolic branch", ("multivector", "            elif isinstance(ll, Real) and ll > 0:", "            elif isinstance(ll, Real) and ll >= 0:")),
+    ("only python numbers are asked for their sign (F31)", ("multivector", "            elif isinstance(ll, Real) and ll > 0:", "            elif isinstance(ll, (float, int)) and ll > 0:")),
     ("sinc without the pi rescaling", ("multivector", "                sinhc = lambda x: np.sinc(x / np.pi)", "                sinhc = lambda x: np.sinc(x)")),
 ])
 def exp_branches(ctx):
